@@ -24,6 +24,16 @@ stood must decode to the input value (strings exactly, integers exactly, floats 
 ``float(text)``).  The SQLite instance of the lexer is calibrated in part A (what the
 lexer decodes is what SQLite returns for ``SELECT <literal>``).
 
+Candidate genuine defects re-found on the unchanged tree (they keep firing):
+  pyformat-text-in-literal-rewritten-by-positional-compile   a literal containing
+        ``%(name)s`` is rewritten to ``?`` (qmark) / ``%s`` (format) by
+        SQLCompiler._process_positional, which regex-substitutes over the whole statement
+        text including inlined literals: ``select(literal("%(x)s"))`` -> ``SELECT '?'``
+  neg-of-negative-literal-opens-comment   ``-literal(-5)`` -> ``--5`` (comment) on every
+        dialect but MySQL
+  literal-not-inlined:isdistinct   visit_is_[not_]distinct_from_binary of sqlite, mysql,
+        mssql, oracle call self.process() without **kw: literal_binds is lost
+
 Guards: floats are compared within 1e-13 relative (SQLite's text->double conversion of
 the literal is not always correctly rounded); -0.0 == 0.0; Numeric/Float literals without a fraction come back as INTEGER
 from SQLite (0 vs 0.0 compared numerically); the typed round trip of Numeric/Float is
